@@ -3,5 +3,5 @@
 From Coq Require Import extraction.ExtrOcamlBasic.
 From Verif Require Import Base.Prelude Model.Restrict Model.Count Model.Slice Model.Spectrum.
 Extraction "../ocaml/model_c19.ml"
-  fftfreq_idx fft_positions psd_mults crop_pad_z sumsq_z epoch_idx
+  fftfreq_idx fft_positions psd_mults psd_mults_orig doubled crop_pad_z sumsq_z epoch_idx
   overlap_split seg_count alloc_rows seg_slices mean_plan.
